@@ -638,10 +638,18 @@ impl World {
                 let q = Q(*k);
                 let add = *add;
                 let cr = windowed(|| {
-                    m.get_mut(&q).map(|v| {
-                        v.v += add;
-                        (v.v, v.id)
-                    })
+                    if add % 2 == 1 {
+                        m.get_key_value_mut(&q).map(|(kk, v)| {
+                            kk.check("get_key_value_mut");
+                            v.v += add;
+                            (v.v, v.id)
+                        })
+                    } else {
+                        m.get_mut(&q).map(|v| {
+                            v.v += add;
+                            (v.v, v.id)
+                        })
+                    }
                 });
                 let r = self.refs[mid].as_mut().unwrap();
                 let expect = r.get_mut(k).map(|e| {
